@@ -8,6 +8,7 @@ from ..workloads.gen_expect import rng_for
 from ..workloads.puppetctl import PeerError
 from ..workloads.transports import Link
 from ..core.watchdog import watchdog, CaseTimeout
+from ..core.acc import second_attempt
 
 ID = 'C08'
 LEVEL = 'exploration'
@@ -329,5 +330,8 @@ def run_shard(spec, acc):
         except PeerError as e:
             acc.inconc('peer: %s' % e)
         except CaseTimeout as e:
-            acc.inconc('watchdog: %s (%s/%s, calls %s)' % (e, case['transport'], case['enc'],
-                                                          short([c0[0] for c0 in case['calls']], 120)))
+            try:
+                second_attempt(acc, case, lambda: one(case, acc), 60, 'send sequence on %s/%s (calls %s) did not finish within 60 s' % (
+                    case['transport'], case['enc'], short([c0[0] for c0 in case['calls']], 120)))
+            except PeerError as e2:
+                acc.inconc('peer: %s' % e2)
